@@ -63,6 +63,12 @@ def gen(ctx):
         for sel in ["[0]", "[-1]", "[0:2]", "[::-1]", "[*]", ".*", "['a']", ".a", "..a", "..[0]", "..*", "[0, 'a', *]", "[1:]", "['0']"]:
             text = f"$.{key}{sel}"
             cases.append({"kind": "text", "text": text, "doc": wrong})
+    # indices and slice bounds exactly at the interoperability limits +-(2**53 - 1) are valid RFC 9535 integers
+    big = 2 ** 53 - 1
+    for doc in ([1, 2, 3], {str(big): "x", str(-big): "y", "a": [1, 2]}, []):
+        for t in [f"$[{big}]", f"$[-{big}]", f"$[0:{big}]", f"$[-{big}:]", f"$[::{big}]", f"$[::-{big}]", f"$[{big}, 0]", f"$..[{big}]", f"$[{big - 1}]", f"$[-{big}:{big}:1]",
+                  f"$.a[:{big}]", f"$.a[{big}:-{big}:-1]"]:
+            cases.append({"kind": "limit", "text": t, "doc": doc})
     return cases
 
 
@@ -82,8 +88,8 @@ def evaluate(ctx, cases):
             continue
         o = qeval.compile_outcome(c["text"])
         if "err" in o:
-            if c["kind"] == "query":
-                ctx.violation("a query in a spelling the RFC 9535 grammar allows must compile", {k: c[k] for k in ("text", "ast", "style")}, o, "compiles")
+            if c["kind"] in ("query", "limit"):
+                ctx.violation("a query in a spelling the RFC 9535 grammar allows must compile", {k: c.get(k) for k in ("text", "ast", "style")}, o, "compiles")
             ctx.case(c["text"], False)
             continue
         try:
